@@ -3,7 +3,7 @@
 //! movements, RES after failures, INV allow-list enumeration is a permutation of the allowed set.
 use crate::args;
 use crate::contracts::timelock::CountTarget;
-use crate::contracts::tokens::TokBase;
+use crate::contracts::tokens::{LaxToken, TokBase};
 use crate::examples::fee_permissioned::FeeForwarder as Permissioned;
 use crate::examples::fee_permissionless::FeeForwarder as Permissionless;
 use crate::report::Report;
@@ -28,7 +28,11 @@ fn history(cfg: &Cfg, rep: &mut Report, permissioned: bool, h: u64, steps: usize
         e.register(Permissionless, ())
     };
     let kind = if permissioned { "permissioned" } else { "permissionless" };
-    let tokens: Vec<Address> = (0..4).map(|_| e.register(TokBase, ())).collect();
+    // three library tokens and one deliberately lax token (no sign/expiration checks of its own): what
+    // the forwarder promises must not depend on the fee token being strict
+    let mut tokens: Vec<Address> = (0..3).map(|_| e.register(TokBase, ())).collect();
+    tokens.push(e.register(LaxToken, ()));
+    let lax = 3usize;
     let target = e.register(CountTarget, ());
     for t in &tokens {
         invoke::<()>(e, t, "mint", args!(e, user, 10_000i128)).unwrap();
@@ -150,7 +154,8 @@ fn history(cfg: &Cfg, rep: &mut Report, permissioned: bool, h: u64, steps: usize
         let exp_ok = exp >= cur && exp <= max_live;
         let eager = !permissioned;
         let needs_approve = eager || pre_allow < max;
-        let approval_ok = if needs_approve { exp_ok } else { exp >= cur };
+        // the library token validates the expiration of an approve itself; the lax one does not
+        let approval_ok = if needs_approve { exp_ok || ti == lax } else { exp >= cur };
         let auth_ok = user_signs && variant == 0 && relayer_signs && (!permissioned || who_relayer == relayer);
         let want = auth_ok && token_ok && who_user != fwd && bounds_ok && approval_ok && pre_user >= fee && !fail_target;
         w.auth(&entries);
@@ -165,7 +170,7 @@ fn history(cfg: &Cfg, rep: &mut Report, permissioned: bool, h: u64, steps: usize
         let expcls = if exp < cur { "expired" } else if exp == cur { "at-cur" } else if exp > max_live { "beyond-max" } else { "future" };
         let alcls = if pre_allow < max { "allow<max" } else if pre_allow == max { "allow=max" } else { "allow>max" };
         rep.op(format!("#{step} @{cur} forward token {ti} fee {fee} max {max} exp {exp} target.{tfn} user={} relayer={} tuple-variant {variant} relayer_signs {relayer_signs} (allowance {pre_allow}, allowed {allowed:?}) -> {}", if who_user == user { "user" } else if who_user == fwd { "forwarder" } else { "relayer" }, if who_relayer == relayer { "relayer" } else { "stranger" }, tag(&got)));
-        rep.case(format!("{kind}/forward/{feecls}/{expcls}/{alcls}/tuple={variant}/relayer_signs={relayer_signs}/target_ok={}/{}", !fail_target, tag(&got)));
+        rep.case(format!("{kind}/forward/lax-token={}/{feecls}/{expcls}/{alcls}/tuple={variant}/relayer_signs={relayer_signs}/target_ok={}/{}", ti == lax, !fail_target, tag(&got)));
         rep.count(&format!("forward:{}", tag(&got)));
         if got.is_ok() {
             rep.check("auth", user_signs && variant == 0, &format!("C19/auth/{kind}/forward/passed-without-exact-user-authorization"), || format!("forward succeeded with user authorization variant {variant} (0 = exact tuple, 8 = none)"));
